@@ -168,6 +168,69 @@ Proof.
     + apply IH in H; auto.
 Qed.
 
+(* the step-by-step view of the same run (pool_trace: what the harness observes in the real store after every
+   candidate): its last chain plasma is the run's, and after EVERY step the plasma booked for the account's unconfirmed
+   blocks is within what the fused QSR provides *)
+Lemma last_cons_default {A} (l : list A) : forall (a d : A), last (a :: l) d = last l a.
+Proof.
+  induction l as [|b l IH]; intros a d; [reflexivity|].
+  change (last (a :: b :: l) d) with (last (b :: l) d). rewrite (IH b d), (IH b a). reflexivity.
+Qed.
+
+Lemma pool_trace_final fa c cs : forall u,
+  last (map snd (pool_trace fa c u cs)) u = fst (pool_run fa c u cs).
+Proof.
+  induction cs as [|k r IH]; intros u; cbn [pool_trace pool_run]; [reflexivity|].
+  destruct (plasma_check fa c u (c_base k) (c_f k) (c_d k) (c_pow k)) as [t b nc| |] eqn:E;
+    cbn [map snd]; rewrite last_cons_default.
+  - rewrite IH. destruct (pool_run fa c nc r) as [u2 acc2]. reflexivity.
+  - apply IH.
+  - apply IH.
+Qed.
+
+Lemma pool_trace_length fa c cs : forall u, length (pool_trace fa c u cs) = length cs.
+Proof.
+  induction cs as [|k r IH]; intros u; cbn [pool_trace]; [reflexivity|].
+  destruct (plasma_check fa c u (c_base k) (c_f k) (c_d k) (c_pow k)); cbn [length]; rewrite IH; reflexivity.
+Qed.
+
+Lemma pool_trace_bounded fa c cs : forall u,
+  0 <= c <= u -> u - c <= fused_to_plasma fa ->
+  Forall (fun k => 0 <= c_f k < two64 /\ 0 <= c_d k < two64) cs ->
+  Forall (fun p => c <= snd p /\ snd p - c <= fused_to_plasma fa) (pool_trace fa c u cs).
+Proof.
+  induction cs as [|k r IH]; intros u Hcu Hinv Hall; cbn [pool_trace]; [constructor|].
+  inversion Hall as [|? ? [Hf Hd] Hr]; subst.
+  destruct (plasma_check fa c u (c_base k) (c_f k) (c_d k) (c_pow k)) as [t b nc| |] eqn:E.
+  - apply plasma_check_sound in E; auto. destruct E as (_ & _ & _ & _ & Hfz & ->).
+    constructor; [cbn [snd]; lia|]. apply IH; auto; lia.
+  - constructor; [cbn [snd]; lia|]. apply IH; auto.
+  - constructor; [cbn [snd]; lia|]. apply IH; auto.
+Qed.
+
+Lemma pool_trace_is_pool_run fa c cs u :
+  length (pool_trace fa c u cs) = length cs /\
+  last (map snd (pool_trace fa c u cs)) u = fst (pool_run fa c u cs).
+Proof. split; [apply pool_trace_length | apply pool_trace_final]. Qed.
+
+(* one accepted step books exactly the block's fused plasma; a refused one books nothing *)
+Lemma pool_trace_step fa c u k r :
+  0 <= c <= u -> 0 <= c_f k < two64 -> 0 <= c_d k < two64 ->
+  exists code u1, pool_trace fa c u (k :: r) = (code, u1) :: pool_trace fa c u1 r /\
+    ((code = 0 /\ u1 = u + c_f k /\ (u - c) + c_f k <= fused_to_plasma fa) \/ (code <> 0 /\ u1 = u)).
+Proof.
+  intros Hcu Hf Hd. cbn [pool_trace].
+  destruct (plasma_check fa c u (c_base k) (c_f k) (c_d k) (c_pow k)) as [t b nc|e|] eqn:E.
+  - apply plasma_check_sound in E; auto. destruct E as (_ & _ & _ & _ & Hfz & ->).
+    exists 0, (u + c_f k). split; [reflexivity|]. left. repeat split; lia.
+  - exists e, u. split; [reflexivity|]. right. split; [|reflexivity].
+    unfold plasma_check, enough_plasma in E.
+    destruct (negb (c_d k =? 0) && negb (c_pow k)); [inversion E; lia|].
+    destruct (available fa c u); [|discriminate].
+    repeat match type of E with (if ?x then _ else _) = _ => destruct x end; inversion E; lia.
+  - exists 9, u. split; [reflexivity|]. right. split; [lia|reflexivity].
+Qed.
+
 (* base cost: what a plain transfer pays per byte, and the range of the embedded method costs *)
 Lemma base_plasma_transfer len b :
   0 <= len -> base_plasma false false false 0 len = BOk b ->
@@ -239,10 +302,10 @@ Lemma enough_plasma_is_source fa c u base f d tp bp addres :
   enoughPlasma tp bp false (fst av) (snd av) f d base 0 addres =
   match enough_plasma fa c u base f d with
   | PPanic => Panic
-  | PErr 1 => Ok (Err_constants_ErrNotEnoughPlasma, tp, bp)
-  | PErr 2 => Ok (Err_constants_ErrBlockPlasmaLimitReached, total, bp)
-  | PErr _ => Ok (Err_constants_ErrNotEnoughTotalPlasma, total, base)
-  | POk t b _ => Ok (addres, t, b)
+  | PErr 1 => Ok (Err_constants_ErrNotEnoughPlasma, tp, bp, None)
+  | PErr 2 => Ok (Err_constants_ErrBlockPlasmaLimitReached, total, bp, None)
+  | PErr _ => Ok (Err_constants_ErrNotEnoughTotalPlasma, total, base, None)
+  | POk t b _ => Ok (addres, t, b, Some f)
   end.
 Proof.
   cbv zeta. rewrite available_is_source. unfold enough_plasma, enoughPlasma.
@@ -255,23 +318,58 @@ Proof.
   - reflexivity.
 Qed.
 
+(* what is written into the account's chain-plasma counter: the amount handed to AddChainPlasma by enoughPlasma (the last
+   component above: the block's FusedPlasma, nothing on the refusing paths) added by accountStore.AddChainPlasma
+   (chain/account/plasma.go, the statement plasma.Add(plasma, big.NewInt(int64(add))) translated from source) *)
+Lemma to_int64_is_wrapS x : to_int64 x = wrapS 64 x.
+Proof.
+  unfold to_int64, wrapS. change (2 ^ (64 - 1)) with two63. change (2 ^ 64) with two64. cbv zeta.
+  unfold two63, two64.
+  destruct (x mod 18446744073709551616 <? 9223372036854775808) eqn:E; lia.
+Qed.
+
+Lemma enough_plasma_books_source fa c u base f d t b nc :
+  enough_plasma fa c u base f d = POk t b nc -> nc = AddChainPlasma_sum f u.
+Proof.
+  unfold enough_plasma. intros H.
+  destruct (available fa c u) as [av|]; [|discriminate].
+  repeat match type of H with (if ?x then _ else _) = _ => destruct x end; try discriminate.
+  inversion H; subst. unfold AddChainPlasma_sum. rewrite to_int64_is_wrapS. reflexivity.
+Qed.
+
 (* a block of an embedded address is not charged: nothing is read, nothing is written *)
 Lemma enough_plasma_embedded tp bp av ae f d base be addres :
-  enoughPlasma tp bp true av ae f d base be addres = Ok (0, tp, bp).
+  enoughPlasma tp bp true av ae f d base be addres = Ok (0, tp, bp, None).
 Proof. reflexivity. Qed.
 
-Lemma source_accept_sound fa c u base f d tp bp total b :
+Lemma source_accept_sound fa c u base f d tp bp total b booked :
   0 <= c <= u -> 0 <= f < two64 -> 0 <= d < two64 ->
   let av := AvailablePlasma c 0 fa 0 u 0 in
-  enoughPlasma tp bp false (fst av) (snd av) f d base 0 0 = Ok (0, total, b) ->
+  enoughPlasma tp bp false (fst av) (snd av) f d base 0 0 = Ok (0, total, b, booked) ->
   b = base /\ base <= total <= MaxPlasmaForAccountBlock /\ total = f + difficulty_to_plasma d /\
-  (u - c) + f <= fused_to_plasma fa.
+  (u - c) + f <= fused_to_plasma fa /\
+  booked = Some f /\ AddChainPlasma_sum f u = u + f.
 Proof.
   intros Hcu Hf Hd av. subst av. rewrite enough_plasma_is_source.
   destruct (enough_plasma fa c u base f d) as [t b' nc|code|] eqn:E.
-  - intros H. inversion H; subst. destruct (enough_plasma_sound _ _ _ _ _ _ _ _ _ E Hcu Hf Hd) as (A & B & C & D & _).
+  - intros H. inversion H; subst. pose proof (enough_plasma_books_source _ _ _ _ _ _ _ _ _ E) as Hb.
+    destruct (enough_plasma_sound _ _ _ _ _ _ _ _ _ E Hcu Hf Hd) as (A & B & C & D & Hn).
     repeat split; lia.
   - unfold Err_constants_ErrNotEnoughPlasma, Err_constants_ErrBlockPlasmaLimitReached, Err_constants_ErrNotEnoughTotalPlasma.
     repeat (match goal with |- context [match ?x with _ => _ end] => destruct x end); discriminate.
+  - discriminate.
+Qed.
+
+(* nothing is booked on a refusing path: the amount handed to AddChainPlasma exists only together with the nil result *)
+Lemma source_refusal_books_nothing fa c u base f d tp bp e total b booked :
+  let av := AvailablePlasma c 0 fa 0 u 0 in
+  enoughPlasma tp bp false (fst av) (snd av) f d base 0 0 = Ok (e, total, b, booked) ->
+  e <> 0 -> booked = None.
+Proof.
+  intros av. subst av. rewrite enough_plasma_is_source.
+  destruct (enough_plasma fa c u base f d) as [t b' nc|code|] eqn:E.
+  - intros H He. inversion H; subst. lia.
+  - intros H He.
+    repeat (match type of H with context [match ?x with _ => _ end] => destruct x end); inversion H; reflexivity.
   - discriminate.
 Qed.
